@@ -4,7 +4,7 @@ import json
 props = {json.loads(l)["id"]: json.loads(l) for l in open("/verif/properties.jsonl")}
 pins = json.load(open("/verif/pins.json"))
 TEXT = {
- "C01": "Coq theorems on the front-end model (see level_note) + LEX and PARSE correspondence on exhaustive small strings, token soup, mutated corpus, deep nesting, both profiles, with crash/hang detection.",
+ "C01": "Coq theorems: lex_total (the lexer returns a token list for every source < 4 GiB in both profiles: no panic, no slice off a character boundary, loops terminate) and parse_never_crashes (for every source and any fuel the parser model never reaches any of its panic/unchecked sites — unwrap, unchecked_unwrap, extract_unchecked, assert, debug_assert, buffer slicing for poetic strings — and every error it returns renders), proved through a parser-wide safety invariant over token lists that are ordered slices of the buffer (what C12 proves of the lexer); tied by LEX and PARSE correspondence on exhaustive small strings, token soup, mutated corpus, deep nesting, both profiles, with crash/hang detection.",
  "C02": "PARSE correspondence on generated trees in 4 spellings each (aliases, case, noise, comments, separators, Unicode whitespace) + spelling-invariance oracle on the implementation; Coq theorems as pinned.",
  "C03": "Coq theorems: the model of val.rs computes exactly the declarative 6x6 coercion tables for + - * / equality ordering, negation, not, inc/dec, printed text; evaluation clauses for left-to-right list folding, short-circuit (operand not evaluated, result sound), compound assignment; tied by VAL (exhaustive UxU) and one-line programs for every operator alias on every pair of source values.",
  "C04": "Coq theorems: semantic clauses of if / while / until / block / break / continue as one-step unfoldings of the interpreter model, error stops the block, output written before an error is preserved (from the global interpreter invariant); tied by EXEC control-flow skeletons incl. side-effecting loop conditions and write faults.",
@@ -16,7 +16,7 @@ TEXT = {
  "C10": "Coq theorems as pinned + repeated executions in one process, in fresh processes and through the rrss binary must be byte-identical; model (which has no hash order) = implementation.",
  "C11": "Coq theorems as pinned + EXEC-poetic correspondence and the exact-decimal oracle (exact below 2^53, <= 8 ulp otherwise).",
  "C12": "Coq theorem lex_stream: for every source < 4 GiB and both profiles the lexer model returns tokens, and the source is exactly gap,token,gap,...,gap with ignorable gaps (never a line feed) and every token (incl. staged 's/'re suffixes and tokens after multi-line strings/comments) a non-empty slice at its recorded byte offset whose range is the true (line, byte column) of its first byte and the position just past its last byte; corollaries: order, non-overlap, what `true line/column` means; tied by LEX correspondence (type, payload, spelling, offset, range, post-state) and an independent recomputation of line/column on the implementation's tokens.",
- "C13": "Coq theorems as pinned + fault-injection oracle (Err, reported line = fault line) and PARSE correspondence on code, line and message.",
+ "C13": "Coq theorems: every parse error points at a token of the input whose reported line is its true line (1 + line feeds before it) or, at end of input, at the lexer's final line; a program is returned only when every token was consumed; local rejection clauses (error token at statement start, anything but [,.]? newline after a statement, missing operand at end); tied by the fault-injection oracle (Err, reported line = fault line) and PARSE correspondence on code, line and message.",
  "C14": "Coq theorems over the value model (equality symmetry on all well-formed nested values, compare duality incl. errors, <=&>= = equality, logic vs truthiness, bool build/knock) for all values; tied by exhaustive UxU correspondence in debug and release, the laws re-checked on the implementation's answers and at the program level through every operator spelling.",
  "C15": "Coq theorems as pinned + renaming/re-casing oracle on generated programs (fresh names of all three kinds, accented letters) and model = implementation.",
  "C16": "Coq theorem: for every visitor with monoid outputs the runner's walk = left-to-right fold of the callback over the flat field-order event list, stopping at the first error (returned unchanged); tied by suite VISIT (recording visitor against the public traits failing at every callback index).",
